@@ -10,6 +10,7 @@ import (
 	"net/http"
 	"net/url"
 	"strings"
+	"sync"
 	"syscall"
 	"time"
 
@@ -264,9 +265,14 @@ func NewUpstream(addr string, opt Opt) (_ Upstream, err error) {
 				MaxResponseHeaderBytes: 4 * 1024,
 			}
 		} else {
+			ct := newConnTracker()
 			t1 := &http.Transport{
 				DialContext: func(ctx context.Context, network, addr string) (net.Conn, error) {
-					return dialer.DialContext(ctx, dialNetworkTcpOrUnix(dialAddr), dialAddr)
+					c, err := dialer.DialContext(ctx, dialNetworkTcpOrUnix(dialAddr), dialAddr)
+					if err != nil {
+						return nil, err
+					}
+					return ct.track(c)
 				},
 				TLSClientConfig:     opt.TLSConfig,
 				TLSHandshakeTimeout: tlsHandshakeTimeout,
@@ -286,7 +292,7 @@ func NewUpstream(addr string, opt Opt) (_ Upstream, err error) {
 			t2.ReadIdleTimeout = time.Second * 30
 			t2.PingTimeout = time.Second * 5
 			t = t1
-			addonCloser = closerFunc(func() error { t1.CloseIdleConnections(); return nil })
+			addonCloser = closerFunc(func() error { t1.CloseIdleConnections(); ct.close(); return nil })
 		}
 		opt := transport.DoHTransportOpts{
 			EndPointUrl:  addrURL.String(),
@@ -380,6 +386,55 @@ func (u *upstreamWithCloser) Close() error {
 	err := u.Transport.Close()
 	u.closer.Close()
 	return err
+}
+
+// connTracker keeps track of the connections dialed by a http.Transport. So they
+// can be closed, busy or not, when the upstream is closed.
+type connTracker struct {
+	m      sync.Mutex
+	closed bool
+	conns  map[*trackedConn]struct{}
+}
+
+type trackedConn struct {
+	net.Conn
+	t *connTracker
+}
+
+func newConnTracker() *connTracker {
+	return &connTracker{conns: make(map[*trackedConn]struct{})}
+}
+
+// track returns a wrapped c. If t was closed, c will be closed and an error will be returned.
+func (t *connTracker) track(c net.Conn) (net.Conn, error) {
+	t.m.Lock()
+	defer t.m.Unlock()
+	if t.closed {
+		c.Close()
+		return nil, transport.ErrClosedTransport
+	}
+	tc := &trackedConn{Conn: c, t: t}
+	t.conns[tc] = struct{}{}
+	return tc, nil
+}
+
+// close closes all tracked connections. Subsequent track calls will fail.
+func (t *connTracker) close() {
+	t.m.Lock()
+	t.closed = true
+	conns := t.conns
+	t.conns = nil
+	t.m.Unlock()
+	for c := range conns {
+		c.Conn.Close()
+	}
+}
+
+func (c *trackedConn) Close() error {
+	c.t.m.Lock()
+	delete(c.t.conns, c)
+	c.t.m.Unlock()
+	return c.Conn.Close()
 }
 
 type closerFunc func() error
